@@ -28,7 +28,7 @@ def build(ctx, fuzz=False):
 
 class TrxIf:
     def __init__(self, exe):
-        self.drv = cbuild.Driver(exe)
+        self.drv = cbuild.Driver(exe, max_line=65000)
         self.req("open")
 
     def req(self, line):
